@@ -156,3 +156,23 @@ where
         r
     }
 }
+
+#[cfg(feature = "verif_hooks")]
+impl<K, V> Lru<K, V>
+where
+    K: Hash + Clone + Eq + PartialEq + Debug,
+    V: Eq + PartialEq + Clone,
+{
+    /// `(cap, num_filled, slots)`, each filled slot as `(key, value, hash)`
+    #[allow(clippy::type_complexity)]
+    pub fn verif_dump(&self) -> (usize, usize, Vec<Option<(K, V, u64)>>) {
+        (
+            self.cap,
+            self.num_filled,
+            self.tbl
+                .iter()
+                .map(|e| e.as_ref().map(|e| (e.key.clone(), e.val.clone(), e.hash)))
+                .collect(),
+        )
+    }
+}
